@@ -7,6 +7,7 @@ package codec
 // calling Conflicts.
 
 import (
+	"encoding/binary"
 	"bytes"
 	"fmt"
 	"strings"
@@ -90,7 +91,7 @@ func encodeRefBlock(rev int, cols []ref.Column, customFlagAt int) []byte {
 	return e.B
 }
 
-func c18decode(data []byte, rev int, res proto.Results) error {
+func c18decode(data []byte, rev int, res proto.Result) error {
 	var b proto.Block
 	r := readerOf(data)
 	err := safely(func() error { return b.DecodeBlock(r, rev, res) })
@@ -104,7 +105,7 @@ func c18decode(data []byte, rev int, res proto.Results) error {
 func TestC18Binding(t *testing.T) {
 	st := stats.G()
 	classes := []string{"identical", "permuted", "renamed", "extra-column", "missing-column", "blank-names", "type-swapped",
-		"fixedstring-size", "zero-rows-no-targets", "zero-rows-with-targets", "custom-serialization", "schema-change-sequence", "auto-targets-enforced", "autoresult-reinferred"}
+		"fixedstring-size", "zero-rows-no-targets", "zero-rows-with-targets", "custom-serialization", "schema-change-sequence", "auto-targets-enforced", "autoresult-reinferred", "rows-without-columns"}
 	rapid.Check(t, func(rt *rapid.T) {
 		class := rapid.SampledFrom(classes).Draw(rt, "class")
 		rev := rapid.SampledFrom(blockRevs).Draw(rt, "rev")
@@ -255,6 +256,39 @@ func TestC18Binding(t *testing.T) {
 			if target.Rows() != 0 {
 				rt.Fatalf("[%s] target holds %d rows after the rejected block", class, target.Rows())
 			}
+		case "rows-without-columns":
+			// A header announcing rows but no columns has nothing the targets could be bound to:
+			// an error with targets and without a target; only 0 x 0 is the end marker.
+			nrows := rapid.SampledFrom([]int{1, 2, rows, 1000, 1 << 20}).Draw(rt, "announced-rows")
+			hdr := func(c, r int) []byte {
+				e := &ref.Enc{}
+				ref.EncodeBlock(e, rev, &ref.Block{Info: ref.BlockInfo{BucketNum: -1}})
+				// the empty block ends with its two counts, one byte each: columns, rows
+				out := append([]byte(nil), e.B[:len(e.B)-2]...)
+				out = binary.AppendUvarint(out, uint64(c))
+				return binary.AppendUvarint(out, uint64(r))
+			}
+			tc, res := mkTargets(false)
+			for i := range tc {
+				tc[i].AppendBulk(cols[i].Rows)
+			}
+			err := c18decode(hdr(0, nrows), rev, res)
+			if err == nil || isPanic(err) {
+				rt.Fatalf("[%s] block announcing %d rows and 0 columns was accepted by %d typed targets (%v)", class, nrows, n, err)
+			}
+			// (An empty, non-nil target list has the same column count as this block, zero, and binds nothing:
+			// the statement does not make that an error. A nil target is "no target".)
+			if err := c18decode(hdr(0, nrows), rev, nil); err == nil || isPanic(err) {
+				rt.Fatalf("[%s] block announcing %d rows and 0 columns was accepted without a target (%v)", class, nrows, err)
+			}
+			for i := range tc {
+				if got := tc[i].Column().Rows(); got != rows {
+					rt.Fatalf("[%s] target %d holds %d rows after the rejected header, had %d", class, i, got, rows)
+				}
+			}
+			if err := c18decode(hdr(0, 0), rev, res); err != nil {
+				rt.Fatalf("[%s] the 0 x 0 end marker was rejected: %v", class, err)
+			}
 		case "zero-rows-no-targets":
 			var hdr []ref.Column
 			for _, c := range cols {
@@ -307,6 +341,30 @@ func TestC18Binding(t *testing.T) {
 				rt.Fatalf("[%s] block with the custom-serialization flag set on column %d was accepted (err=%v)", class, i, err)
 			}
 			_ = tc
+			// The column-description target the client binds to the header of an INSERT (proto/column.go):
+			// the descriptors of an unflagged header in order, also when the target is used again for a
+			// header with fewer columns; the flagged header is an error there too.
+			var hdr []ref.Column
+			for _, c := range cols {
+				hdr = append(hdr, ref.Column{Name: c.Name, T: c.Kind.T})
+			}
+			var info proto.ColInfoInput
+			for _, h := range [][]ref.Column{hdr, hdr[:n-1], hdr} {
+				if err := c18decode(encodeRefBlock(rev, h, -1), rev, &info); err != nil {
+					rt.Fatalf("[%s] zero-row header of %d columns into ColInfoInput: %v", class, len(h), err)
+				}
+				if len(info) != len(h) {
+					rt.Fatalf("[%s] ColInfoInput holds %d descriptors after a header of %d columns", class, len(info), len(h))
+				}
+				for j := range h {
+					if info[j].Name != h[j].Name || string(info[j].Type) != h[j].T.Name {
+						rt.Fatalf("[%s] ColInfoInput[%d] = %q %s, header says %q %s", class, j, info[j].Name, info[j].Type, h[j].Name, h[j].T.Name)
+					}
+				}
+			}
+			if err := c18decode(encodeRefBlock(rev, hdr, i), rev, &info); err == nil || isPanic(err) {
+				rt.Fatalf("[%s] zero-row header with the custom-serialization flag set on column %d was accepted by ColInfoInput (err=%v)", class, i, err)
+			}
 		case "auto-targets-enforced":
 			// Targets created by Results.Auto() from the first block are the bound targets from
 			// then on: a later block is held to their count, names and types.
@@ -520,7 +578,7 @@ func TestC18InferAndEquivalences(t *testing.T) {
 		rev := rapid.SampledFrom(blockRevs).Draw(rt, "rev")
 		rows := rapid.IntRange(1, 5).Draw(rt, "rows")
 		class := rapid.SampledFrom([]string{"enum-adopts-definition", "array-of-enum", "map-of-enum", "map-of-two-inferables", "datetime-adopts-zone", "datetime64-adopts-precision",
-			"array-datetime64", "enum-vs-int", "decimal-alias", "nullable-datetime64"}).Draw(rt, "class")
+			"array-datetime64", "enum-vs-int", "decimal-alias", "nullable-datetime64", "array-datetime-zone"}).Draw(rt, "class")
 		le := func(w int, v int64) []byte {
 			b := make([]byte, w)
 			for i := range b {
@@ -664,6 +722,70 @@ func TestC18InferAndEquivalences(t *testing.T) {
 			for i, s := range secs {
 				if r := target.Row(i); r.Unix() != s || r.Location().String() != loc.String() {
 					rt.Fatalf("[%s] row %d = %v want unix %d in %s", class, i, r, s, zone)
+				}
+			}
+		case "array-datetime-zone":
+			zone := rapid.SampledFrom([]string{"UTC", "Europe/Berlin", "Asia/Tokyo", "America/St_Johns"}).Draw(rt, "zone")
+			loc, err := time.LoadLocation(zone)
+			if err != nil {
+				rt.Skip("no tzdata")
+			}
+			tn := fmt.Sprintf("DateTime('%s')", zone)
+			var vals []ref.Val
+			var secs [][]int64
+			for i := 0; i < rows; i++ {
+				var row []ref.Val
+				var rs []int64
+				for j := rapid.IntRange(0, 3).Draw(rt, "len"); j > 0; j-- {
+					s := int64(rapid.Uint32().Draw(rt, "sec"))
+					rs = append(rs, s)
+					row = append(row, le(4, s))
+				}
+				vals = append(vals, row)
+				secs = append(secs, rs)
+			}
+			flavour := rapid.SampledFrom([]string{"auto", "helper", "helper-other-zone", "new-array"}).Draw(rt, "target")
+			var res proto.Results
+			var arr *proto.ColArr[time.Time]
+			switch flavour {
+			case "auto":
+				res = proto.Results{}
+			case "helper":
+				arr = new(proto.ColDateTime).Array()
+			case "helper-other-zone":
+				arr = (&proto.ColDateTime{Location: time.FixedZone("X", 3600)}).Array()
+			case "new-array":
+				arr = proto.NewArray[time.Time](new(proto.ColDateTime))
+			}
+			if arr != nil {
+				res = proto.Results{{Name: "t", Data: arr}}
+				decode([]ref.Column{{Name: "t", T: ref.Array(ref.Fixed(tn, 4)), Rows: vals}}, res)
+			} else {
+				if err := c18decode(encodeRefBlock(rev, []ref.Column{{Name: "t", T: ref.Array(ref.Fixed(tn, 4)), Rows: vals}}, -1), rev, res.Auto()); err != nil {
+					rt.Fatalf("[%s] automatic target: %v", class, err)
+				}
+				var inferred any = res[0].Data
+				if a, ok := inferred.(*proto.ColAuto); ok {
+					inferred = a.Data
+				}
+				var ok bool
+				arr, ok = inferred.(*proto.ColArr[time.Time])
+				if !ok {
+					rt.Fatalf("[%s] inferred column is %T, want an array of times", class, inferred)
+				}
+			}
+			if got, want := string(arr.Type()), "Array("+tn+")"; got != want {
+				rt.Fatalf("[%s/%s] target reports %q after decoding a block of %q", class, flavour, got, want)
+			}
+			for i, rs := range secs {
+				got := arr.Row(i)
+				if len(got) != len(rs) {
+					rt.Fatalf("[%s/%s] row %d has %d elements want %d", class, flavour, i, len(got), len(rs))
+				}
+				for j, s := range rs {
+					if got[j].Unix() != s || got[j].Location().String() != loc.String() {
+						rt.Fatalf("[%s/%s] row %d element %d = %v (zone %s) want unix %d in %s", class, flavour, i, j, got[j], got[j].Location(), s, zone)
+					}
 				}
 			}
 		case "datetime64-adopts-precision", "array-datetime64", "nullable-datetime64":
